@@ -119,6 +119,27 @@ func deepInput(lang, depth int) []byte {
 
 var interestingRunes = []rune{'a', 'Z', '_', '$', '0', ' ', '\n', '"', '\'', '\\', '/', '<', '&', 0xE9, 0xDF, 0x3A3, 0x1E9, 0x663, 0x200C, 0x2028, 0x20AC, 0x3042, 0x6F22, 0xFEFF, 0xFFFD, 0x10000, 0x1D400, 0x1D7D8, 0x1F600, 0x20000, 0x2FA1D, 0xE0100, 0x10FFFF}
 
+func init() {
+	// For every character in the list also its aliases modulo 2^16 (the character a table or cache
+	// keyed by a truncated code point would confuse it with): the other planes for BMP characters,
+	// the BMP character for supplementary ones.
+	base := append([]rune{0xF92F, 0x1D7CE}, interestingRunes...)
+	for _, r := range base {
+		var al []rune
+		if r >= 0x10000 {
+			al = []rune{r & 0xFFFF}
+		} else if r >= 0x80 {
+			al = []rune{r + 0x10000}
+		}
+		for _, a := range al {
+			if a >= 0x80 && (a < 0xD800 || a > 0xDFFF) {
+				interestingRunes = append(interestingRunes, a)
+			}
+		}
+	}
+	interestingRunes = append(interestingRunes, 0xF92F, 0x1D7CE)
+}
+
 // sameLengthDecoy returns different content of exactly the same length and line structure shifted.
 func sameLengthDecoy(d []byte) []byte {
 	o := make([]byte, len(d))
